@@ -65,6 +65,10 @@ T = {
  'C13': dict(design='4/C13', technique='property-based testing over generated drawing programs: union-find model oracle, consistent node bijection, exact electrical reference, metamorphic geometric transformations',
              text='Generated drawing programs (all supported symbols, wires, chains, junctions, labels, ground; plain and rendered execution) are translated and compared with an independent model of what the drawing depicts: component kinds/values/terminal order, node identity (two terminals are one node iff they coincide or are joined by wires), label and reference names, the exact solution of the intended netlist, and invariance under rotation, translation, rescaling, wire subdivision and insertion-order permutation.',
              note='Placement by .endpoints only; symbols are kept longer than their body; electrical comparisons skip ill-posed / ill-conditioned drawings (e.g. closed switches); sin-referenced sources are not generated.'),
+
+ 'C15': dict(design='4/C15', technique='round-trip property-based testing of drawing persistence (1-3 save/load cycles, string and file) and differential testing of declarative descriptions against a turtle model',
+             text='Generated drawings over the persistable symbol set are saved to JSON and reloaded up to three times; after every cycle the translated circuit must still match the independent model of the original drawing (ids, kinds, values, terminal order, connectivity by node bijection, reference). Generated declarative element lists (every handler, direction, length, place_after, reverse, node and ground entries) are compared with a turtle model that never touches schemdraw.',
+             note='JSON only (the statement names JSON; YAML of a drawing is not claimed); two-terminal declarative entries always state a direction; reflections of a whole drawing are not distinguishable at circuit level.'),
 }
 
 DEFAULT_LEVEL = 'exploration'
